@@ -29,6 +29,11 @@ def run(ctx):
     _alias(ctx, c03.r7, "C03.R7", "C10.R6")
     # ... and the SIGTERM that manage_workers repeats on every pass may find the retiring worker already reaped
     c03.kill_worker_table(ctx, "C10.R6")
+    # a reload does not judge workers of the old generation by the new timeout (they finish what they serve under the
+    # configuration they were started with): the timeout scan of C11.R2 under this property
+    ctx.rule("C10.R7", "K4", "(= C11.R2) after a reload the workers of the outgoing generation are timed out by their own generation's timeout, never by the new one (also when the old one was 0 = disabled)")
+    from . import c11
+    _alias(ctx, c11.r2, "C11.R2", "C10.R7")
 
 
 class _Alias:
